@@ -10,6 +10,7 @@ NOTES = ('All checks are bounded exhaustive enumerations of the real code (no sa
 ENGINES = [
     {'name': 'E1', 'path': 'harness/lib', 'serves_properties': [], 'kind_free_text': 'C drivers that enumerate inputs / operation sequences over the freshly compiled library sources and compare with independent reference models; supervised workers turn crashes and hangs into findings'},
     {'name': 'E2', 'path': 'harness/daemon', 'serves_properties': [], 'kind_free_text': 'explicit-state explorer around the unmodified echsd.c with real libev under a virtual clock: fork per transition, canonical-state deduplication, reference model of the daemon (DESIGN.md appendix B)'},
+    {'name': 'E3', 'path': 'harness/exec', 'serves_properties': [], 'kind_free_text': 'echsx runner: the real echsx under an LD_PRELOAD shim (sendmail recorder, temp-file log) and echsx.c/echsq.c/echsd.c embedded in harness TUs with a controlled libev loop that enumerates job-output/exit schedules'},
 ]
 
 
